@@ -509,7 +509,10 @@ def gen_fail(rng):
     kind = rng.choice(["pull_fail", "push_fail_status", "push_fail_early", "pull_invalid", "push_invalid", "stat_invalid", "list_invalid", "pull_fail_after_data"])
     if kind == "pull_fail":
         sim["fs"] = {b"/x": ("fail", msg)}
-        ops.append(dict(op="pull", path=b"/x", cb=rng.choice(["none", "count"]), dest=rng.choice(["bytesio", "file"])))
+        if rng.random() < 0.3:
+            sim["no_clse_reply"] = True      # the device reports the failure and then does not answer the close (F8)
+        # (with a callback pull first runs stat() on its own stream; a device that never answers a close would already fail that one)
+        ops.append(dict(op="pull", path=b"/x", cb="none" if sim.get("no_clse_reply") else rng.choice(["none", "count"]), dest=rng.choice(["bytesio", "file"])))
         sim["stat"] = {b"/x": (1, 2, 3)}
     elif kind == "pull_fail_after_data":
         raw = b"".join(sync_rec(b"DATA", len(c), data=c) for c in [b"abc", b"defg"][: rng.randrange(0, 3)]) + sync_rec(b"FAIL", len(msg), data=msg)
